@@ -298,3 +298,7 @@ def rules(ctx):
     partition(ctx)
     gbs_guards(ctx)
     conservation(ctx)
+    # the optimiser works on the same per-wire grid: its bookkeeping of multi-wire commands and of the position of a merged
+    # command decides whether commands that share a mode / a measured parameter keep their order (shared with C03)
+    from . import c03
+    c03.wire_uniqueness(ctx, "C04.optimizer-order")
